@@ -145,10 +145,19 @@ def mkAddr (s : String) : Except String String :=
 
 def addrLine (a : String) : String := "addr " ++ a
 
-def mkMethod (sig : String) : Except String String :=
-  if sig.toList.isEmpty then .error "TealInputError: invalid input empty string to Method" else .ok sig
+/-- the characters `MethodSignature` refuses (`any(c in methodName for c in '"\\\n\r')`): the text is
+    emitted verbatim between double quotes, where a quote would end the literal, a backslash would be read
+    as an escape and a line break would split the instruction -/
+def methodBadChar (c : Char) : Bool := c = '"' || c = '\\' || c = '\n' || c = '\r'
 
-/-- `'"{}"'.format(methodName)` — no escaping of any kind -/
+/-- `MethodSignature.__init__` for a `str` argument (methodsig.py:23-36) -/
+def mkMethod (sig : String) : Except String String :=
+  if sig.toList.isEmpty then .error "TealInputError: invalid input empty string to Method"
+  else if sig.toList.any methodBadChar then
+    .error "TealInputError: invalid method signature: quotes, backslashes and line breaks are not allowed"
+  else .ok sig
+
+/-- `'"{}"'.format(methodName)` — no escaping of any kind (none is needed for an accepted text) -/
 def methodLine (sig : String) : String := "method \"" ++ sig ++ "\""
 
 /-! ### `correctBase32Padding`  (util.py:77-93) -/
